@@ -91,8 +91,19 @@ func genC11(t *rapid.T) c11Case {
 	})
 	// a burst of arrivals first so that a backlog exists, then the generated mix
 	n := rapid.IntRange(2, 6).Draw(t, "arrivals")
+	collapse := c.Stack.Kind != "fixedpool" && rapid.IntRange(0, 11).Draw(t, "collapse") == 0
+	if collapse {
+		// a limit that collapses far below the number of tokens out: release after release frees nothing usable, the
+		// head of the line is looked at (and refused by the delegate) again and again, and must still be the one served
+		// when capacity finally returns
+		c.Stack.Limit = rapid.IntRange(17, 24).Draw(t, "bigLimit")
+		n = c.Stack.Limit + rapid.IntRange(2, minInt(3, c.Stack.Backlog)).Draw(t, "waiting")
+	}
 	for i := 0; i < n; i++ {
 		c.Ops = append(c.Ops, c11Op{K: "arrive"})
+	}
+	if collapse {
+		c.Ops = append(c.Ops, c11Op{K: "setlimit", N: rapid.IntRange(1, 2).Draw(t, "collapsedTo")}, c11Op{K: "drain", N: c.Stack.Limit + 1})
 	}
 	c.Ops = append(c.Ops, rapid.SliceOfN(op, 1, 25).Draw(t, "ops")...)
 	return c
@@ -194,6 +205,17 @@ func runC11InBubble(c c11Case) (out kit.Outcome) {
 		}
 		for r := 0; r < op.N; r++ {
 			ops = append(ops, c11Op{K: "arrive"}, c11Op{K: "release", Idx: 0, Outcome: (op.Outcome + r) % 3})
+		}
+	}
+	// drain(N) stands for N releases in a row
+	for i := 0; i < len(ops); i++ {
+		if ops[i].K == "drain" {
+			var rel []c11Op
+			for r := 0; r < ops[i].N; r++ {
+				rel = append(rel, c11Op{K: "release", Idx: 0, Outcome: r % 3})
+			}
+			ops = append(ops[:i:i], append(rel, ops[i+1:]...)...)
+			i += len(rel) - 1
 		}
 	}
 	for i, op := range ops {
